@@ -98,7 +98,8 @@ def run(tier, seed, replay=None):
     while len(plans) < n:
         c = rng.random()
         p = g.trait_args_plan() if c < 0.25 else (g.unsized_plan() if c < 0.37 else (g.shifted_nested_plan() if c < 0.43 else
-            (g.single_member_multi_key_plan() if c < 0.47 else g.basic())))
+            (g.single_member_multi_key_plan() if c < 0.47 else (g.wildcard_prefix_plan() if c < 0.52 else
+            (g.interleaved_keys_plan() if c < 0.55 else g.basic())))))
         if rng.random() < 0.15:
             p.trait_unsafe = True
         plans.append(p)
